@@ -336,7 +336,19 @@ def c04(w):
                     f.append(("c04:late", "message %d (ack id %d handed out by t=%d, deadline %d us) still not redelivered by a pull with room at t=%d (op #%d)"
                               % (m, pa, pd["t1"], sub[0]["effdl"], d["t0"], d["ev"])))
         for (a, m, _, _) in d["items"]:
-            last[(d["sub_inc"], m)] = (d, a)
+            k2 = (d["sub_inc"], m)
+            if k2 in last:
+                # --- too early: a delivery that was neither acknowledged nor modified is not handed out
+                # again before hand-out + effective deadline
+                pd, pa = last[k2]
+                touched = any(x["sub_inc"] == d["sub_inc"] and x["e"] > pd["b"] and x["b"] < d["e"] and _names(x["ids"], pa) for x in w.mods) or \
+                    any(x["sub_inc"] == d["sub_inc"] and x["e"] > pd["b"] and x["b"] < d["e"] and _names(x["ids"], pa) for x in w.acks)
+                effdl = sub[0]["effdl"] if sub else 10 * US
+                if not touched and pd["e"] < d["b"] and d["t1"] < pd["t0"] + effdl:
+                    f.append(("c04:early:%s" % d["via"],
+                              "message %d redelivered on %r at t<=%d although its unmodified delivery (ack id %d, handed out at >=%d) has a deadline of %d us (op #%d)"
+                              % (m, d["sub"], d["t1"], pa, pd["t0"], effdl, d["ev"])))
+            last[k2] = (d, a)
     return f
 
 
@@ -895,6 +907,11 @@ def c16(w):
     """After an abandoned request the server is in a state reachable without it or with it
     completed: every existing subscription is attached to its (live) topic and receives."""
     f = []
+    # a subscription wedged by an abandoned consumer: at a quiescent instant messages are queued while
+    # other consumers wait (the state no completed or never-received request could have produced)
+    if any(getattr(x, "dropped", False) for x in w.evs):
+        for sig, msg in c06(w):
+            f.append((sig.replace("c06:", "c16:wedged-after-abandon:", 1), msg))
     for x in w.evs:
         if x.ans.startswith("HANG"):
             f.append(("c16:hang:%s" % x.op, "`%s` hangs after an abandoned request (op #%d)" % (x.line[:80], x.i)))
@@ -1311,7 +1328,25 @@ def c14_push(lines, answers, meta, model_accepts):
                 f.append(("c14:payload:message-id", "POST carries message id %s/%s, Publish returned %s" % (p["mid"], p["mid2"], pub_ids.get(data))))
             if p["attrs"] != m["attrs"]:
                 f.append(("c09:push-attributes", "POST carries attributes %s, published %s" % (p["attrs"], m["attrs"])))
-    known = set((m["tag"], d) for d, m in meta["msgs"].items())
+    # the twin push subscription of the same topic gets every message too (unscripted endpoint: accepted
+    # at once), in a POST that names the TWIN subscription
+    for data, m in meta["msgs"].items():
+        twin = meta.get("twins", {}).get(m["tag"])
+        if twin is None:
+            continue
+        got2 = by_msg.get((twin, data), [])
+        if not got2:
+            f.append(("c14:not-posted-to-second-subscription", "message %s was never POSTed to /%s" % (data, twin)))
+        elif len(got2) > 1:
+            f.append(("c14:accepted-status-reposted:200", "message %s POSTed %d times to /%s although accepted at once" % (data, len(got2), twin)))
+        for p in got2:
+            if p["sub"] != meta["subs"][twin]["sub"]:
+                f.append(("c14:payload:subscription", "POST to /%s names subscription %r, expected %r" % (twin, p["sub"], meta["subs"][twin]["sub"])))
+            if p["mid"] != pub_ids.get(data) or p["mid2"] != pub_ids.get(data):
+                f.append(("c14:payload:message-id", "POST to /%s carries message id %s/%s, Publish returned %s" % (twin, p["mid"], p["mid2"], pub_ids.get(data))))
+            if p["attrs"] != m["attrs"]:
+                f.append(("c09:push-attributes", "POST carries attributes %s, published %s" % (p["attrs"], m["attrs"])))
+    known = set((m["tag"], d) for d, m in meta["msgs"].items()) | set((meta.get("twins", {}).get(m["tag"]), d) for d, m in meta["msgs"].items())
     for p in posts:
         if p["path"] not in meta["subs"]:
             f.append(("c14:post-to-unknown-endpoint", "POST to /%s" % p["path"]))
